@@ -51,7 +51,9 @@ def generate(rng, index, cfg):
         if rng.random() < 0.5:
             flags += ["--merge-strategy", rng.choice(MERGE_STRATS)]
         sc = {"entry": "e2e", "shape": "plain", "triple": {"base": base, "local": local, "remote": remote}, "flags": flags,
-              "out": "inplace", "decisions": False, "helpers": ["git", "diff3", "diff"], "line_faults": 0}
+              "out": "inplace", "decisions": False, "helpers": ["git", "diff3", "diff"], "line_faults": 0,
+              # the conflict-marker-size attribute reaches the driver as %L
+              "marker": rng.choice(["7", "7", "10", "32", "3"])}
         return {"scenario": sc, "fault_budget": cfg.get("e2e_fault_budget", 6), "explicit_faults": None}
     entry = rng.choice(["nbmerge", "nbmerge", "driver"])
     base, local, remote = nbgen.triple(rng, max_cells=rng.choice([1, 2, 3]), overlap=rng.choice([0.3, 0.7, 1.0]),
@@ -102,7 +104,9 @@ def generate(rng, index, cfg):
     decisions = entry == "nbmerge" and rng.random() < 0.15
     sc = {"entry": entry, "shape": shape, "triple": triple, "flags": flags, "out": out, "decisions": decisions,
           "helpers": rng.choice([["git", "diff3", "diff"], ["git", "diff3", "diff"], ["diff3", "diff"], ["git"], []]),
-          "line_faults": rng.randint(0, 3), "pathname_exists": rng.random() < 0.8}
+          "line_faults": rng.randint(0, 3), "pathname_exists": rng.random() < 0.8,
+          # %L: git's conflict marker size (the conflict-marker-size attribute, +2 per level of a recursive merge)
+          "marker": rng.choice(["7", "7", "7", "9", "10", "32", "3"])}
     return {"scenario": sc, "fault_budget": cfg["fault_budget"], "pair_budget": cfg.get("pair_budget", 0), "explicit_faults": None}
 
 
@@ -287,7 +291,7 @@ def one_pass(sc, plan, line_total=None, count_lines=False, scratch=None):
         main = app.main
         sys.argv[0] = "nbmerge"
     else:
-        argv = ["merge"] + argv + [paths["base"], paths["local"], paths["remote"], "7", "notebook.ipynb"]
+        argv = ["merge"] + argv + [paths["base"], paths["local"], paths["remote"], sc.get("marker", "7"), "notebook.ipynb"]
         main = mergedriver.main
         sys.argv[0] = "git-nbmergedriver"
 
@@ -730,7 +734,7 @@ def execute_e2e(trace, scratch):
     w.git("config", "merge.jupyternotebook.driver", "git-nbmergedriver merge %s %%O %%A %%B %%L %%P" % " ".join(sc["flags"]))
     w.git("config", "merge.jupyternotebook.name", "jupyter notebook merge driver")
     with open(os.path.join(w.work, ".git", "info", "attributes"), "w") as f:
-        f.write("*.ipynb\tmerge=jupyternotebook\n")
+        f.write("*.ipynb\tmerge=jupyternotebook%s\n" % ("" if sc.get("marker", "7") == "7" else " conflict-marker-size=" + sc["marker"]))
     write_nb(sc["triple"]["base"])
     w.git("add", "nb.ipynb")
     w.git("commit", "-q", "-m", "base")
